@@ -79,6 +79,14 @@ def _check_valid_kmer(x: bytes, gk, revcomp, variants=True):
 			raise Violation('decode_types', f'index_to_kmer with NumPy integer arguments differs for {x!r}', {'kind': 'one_kmer', 'kmer': x.decode()})
 		if gk.index_to_kmer(_np.uint64(exp), k) != x:
 			raise Violation('decode_types', f'index_to_kmer with a NumPy uint64 index differs for {x!r}', {'kind': 'one_kmer', 'kmer': x.decode()})
+		# k itself as a NumPy integer (KmerSpec.k of a specification read from a signature file is a numpy.int64), for every k up to 32
+		for kt in (_np.int64, _np.uint8, _np.intp):
+			try:
+				ok = gk.index_to_kmer(exp, kt(k)) == x and gk.index_to_kmer(_np.uint64(exp), kt(k)) == x
+			except Exception as e:
+				raise Violation('decode_types', f'index_to_kmer({exp}, {kt.__name__}({k})) raised {type(e).__name__}: {e}', {'kind': 'one_kmer', 'kmer': x.decode()})
+			if not ok:
+				raise Violation('decode_types', f'index_to_kmer with k given as {kt.__name__} differs for {x!r}', {'kind': 'one_kmer', 'kmer': x.decode()})
 
 
 def _expect_reject(s: bytes, gk, why):
@@ -201,6 +209,13 @@ def run_case(case, ctx):
 			raise Violation('decode', f'index_to_kmer({idx}, {k}) = {x!r}, expected {R.ref_kmer(idx, k)!r}', case)
 		if gk.kmer_to_index(x) != idx:
 			raise Violation('roundtrip', f'kmer_to_index(index_to_kmer({idx}, {k})) = {gk.kmer_to_index(x)}', case)
+		import numpy as _np
+		try:
+			x2 = gk.index_to_kmer(idx, _np.int64(k))
+		except Exception as e:
+			raise Violation('decode_types', f'index_to_kmer({idx}, numpy.int64({k})) raised {type(e).__name__}: {e}', case)
+		if x2 != x:
+			raise Violation('decode_types', f'index_to_kmer({idx}, numpy.int64({k})) = {x2!r}, with a Python int k {x!r}', case)
 		classes = ['index', f'k={k}' if k in (16, 17, 31, 32) else 'k:other']
 		if idx >= 2 ** 63:
 			classes.append('index>=2^63')
